@@ -121,7 +121,7 @@ def main(argv=None):
                 total_budget = 900 + budget * (1 + len(hs) // max(1, K.JOBS))
                 log("[%s] kani: %d harnesses on %s (per-harness budget %ds)" % (pid, len(hs), unit.crate, budget))
                 results, shown, secs, out = K.run_kani(scratch.tree, unit.crate, [h.name for h in hs], total_budget, budget,
-                                                       features=unit.features)
+                                                       features=unit.features, env=unit.env)
                 cmds.append(shown)
                 for h in hs:
                     r = results[h.name]
